@@ -340,6 +340,32 @@ def run (ctx):
     rets = [n for n in g3.nodes if n.kind == 'return']
     good = bool(rets) and all(any('== length' in x or 'length ==' in x for x in q.fact_strs(g3, r_)) for r_ in rets)
     ctx.ob('R-DOM', ub, "unpack_new asserts consumed == declared before returning", good, "assert (r - offset) == length", ub, 'D4')
+  # message-level decoders that size a read by `length - K`: a declared length below K makes that size negative (the read
+  # then moves the cursor *back*), so the returned offset can still equal the declared length although the fixed part was
+  # taken from the bytes of the next message.  Such a decoder tests the declared length before it returns - the siblings'
+  # `assert length == len(self)` or a lower bound on `length`
+  n_sized = 0; seen_ = set()
+  for r_ in ofreg.registrations(repo):
+    if r_.kind != 'ofp_type': continue
+    f_ = r_.cls.find_method('unpack')
+    if f_ is None or f_ in seen_: continue
+    seen_.add(f_)
+    sized = [n_ for n_ in ast.walk(f_.node) if isinstance(n_, ast.BinOp) and isinstance(n_.op, ast.Sub) and q.mentions_name(n_.left, 'length')]
+    if not sized: continue
+    n_sized += 1; ctx.analysed(f_); g_ = q.cfg_of(f_)
+    rets = [n_ for n_ in g_.nodes if n_.kind == 'return']
+    def tested (n_):
+      for x in q.fact_strs(g_, n_):
+        if 'length' not in x.replace('len(', ''): continue
+        if 'len(self)' in x and ('==' in x): return True
+        if any(op in x for op in ('>=', '<=', '>', '<')) and 'len(' not in x.replace('len(self)', ''): return True
+      return False
+    good = bool(rets) and all(tested(n_) for n_ in rets)
+    ctx.ob('R-SIB', f_, "a decoder that sizes a read by `%s` tests the declared length before returning" % norm(sized[0])[:40], good,
+           "declared length compared with len(self) / bounded below on every return" if good else
+           "`%s` is negative for a declared length below the fixed part, and no return of this decoder is preceded by a test of `length` (its siblings end in `assert length == len(self)`): "
+           "a short message is decoded with fields taken from the following message's bytes and still passes the framing loop's consumed == declared test" % norm(sized[0])[:40], (f_.module, sized[0]), 'D4')
+  ctx.floor('message decoders with length-derived read sizes', n_sized, 9)
   # ---- D5 bytes in error replies -----------------------------------------------------------------------
   if eh is not None:
     for t, v, st, k in q.stores_in(eh.node):
